@@ -27,7 +27,8 @@ shared.export(globals())
 NAMES = ['any', 'int', 'float', 'complex', 'str', 'bytes', 'none', 'bool', 'lit', 'enum_s', 'enum_i', 'strsub',
          'list_int', 'seq_any', 'set_int', 'tuple_var', 'tuple_fix', 'tuple_lit', 'dict_si', 'dict_if', 'counter', 'ddict',
          'struct', 'union', 'opt_list', 'cond_pos', 'cond_rng', 'cond_len', 'cond_nested',
-         'p1', 'p2', 'ph', 'pal', 'pt', 'pn', 'pi', 'list_p1', 'dict_p2']
+         'p1', 'p2', 'ph', 'pal', 'pt', 'pn', 'pi', 'list_p1', 'dict_p2',
+         'cond_set', 'tuple_struct', 'dict_fskey', 'dict_tupkey', 'opt_enum_sm', 'list_enum_im']
 EXTRA = {
     'dict_list': t.Dict[str, t.List[int]],
     'list_tuple': t.List[t.Tuple[int, str]],
@@ -57,6 +58,7 @@ PREDS = {
     Finite: lambda x: x == x and x != float('inf') and x != -float('inf'),
     _rng[0]: lambda x: 0 <= x and x <= 5,
     _len[0]: lambda x: 1 <= len(x) <= 2,
+    t.get_args(TYPES['cond_set'])[1]: lambda x: len(x) >= 2,        # (sees the converted set: duplicates gone)
     PH: lambda vals: not (vals['a'] > vals['b']),        # the validation hook of shared.PH
 }
 for _c in _rng[1:]:
@@ -153,7 +155,8 @@ for _n in TY:
 
 _TD_OK = {'range', 'range_seq', 'tag_int', 'tag_ext', 'tag_adj', 'opt_tag_ext', 'union_tag_adj', 'nested', 'nested_ragged', 'date_text', 'pattern_text',
           'decimal_num', 'fraction_num'}
-shared.emit_td(globals(), "accepts exactly the members, typed image", names=[k for k in shared.TD if k not in _TD_OK])
+shared.emit_td(globals(), "accepts exactly the members, typed image",
+               names=[k for (k, v) in shared.TD.items() if k not in _TD_OK and v[0] in TY])      # (only converters the reference model judges)
 
 
 # ------------------------------------------------------------------ equivalent spellings agree with each other
